@@ -61,10 +61,12 @@ ENTRIES = [
     ("strentry", "pair"),
     ("terr2", obj("2.0", "t", "terr")),
     ("call2-falsy-result", obj("2.0", 3, "ret3")),
+    ("retfault2", obj("2.0", "rf", "retfault")),
+    ("retfault1", obj(ABSENT, "rg", "retfault", [])),
 ]
 ENTRY_MAP = dict(ENTRIES)
 QUICK_ENTRIES = ["call2", "call1", "notif2", "notif1", "fail2", "unknown2", "arity2", "nondict", "emptyobj",
-                 "nomethod-id", "notif2-raise", "call1-idzero"]
+                 "nomethod-id", "notif2-raise", "call1-idzero", "retfault1"]
 
 
 def batches(labels, maxlen):
